@@ -81,17 +81,17 @@ def run(ctx):
                     bh = ops[0]
                     if not (isinstance(bh, ast.Call) and isinstance(bh.func, ast.Attribute) and bh.func.attr == "encode_to_bytes"):
                         continue
-                    if _originated(ctx, h, s.fi, bh.func.value):
-                        continue        # origination from a handler (LS reply), not a forwarded copy
+                    ok_ch, why_ch = _common_ok(ctx, h, s, ops[1] if len(ops) > 1 else None)
+                    ok_ext, why_ext = _ext_ok(ctx, h, s, ops[2] if len(ops) > 2 else None)
+                    ok_pay, why_pay = _payload_ok(ctx, h, s, ops[3:])
+                    if _originated(ctx, h, s.fi, bh.func.value) and not (ok_ch or ok_ext or ok_pay):
+                        continue        # a packet the handler originates (LS reply): no part of it is a received part
                     n_fwd += 1
                     _rhl(ctx, h, s, fl, st, bh.func.value, con, disc, loc)
                     # ---- copy: common header, extended header, payload
-                    ok_ch, why = _common_ok(ctx, h, s, ops[1] if len(ops) > 1 else None)
-                    ctx.ob("C06.copy", con, f"{disc}:common", ok_ch, why, loc)
-                    ok_ext, why = _ext_ok(ctx, h, s, ops[2] if len(ops) > 2 else None)
-                    ctx.ob("C06.copy", con, f"{disc}:extended", ok_ext, why, loc)
-                    ok_pay, why = _payload_ok(ctx, h, s, ops[3:])
-                    ctx.ob("C06.copy", con, f"{disc}:payload", ok_pay, why, loc)
+                    ctx.ob("C06.copy", con, f"{disc}:common", ok_ch, why_ch, loc)
+                    ctx.ob("C06.copy", con, f"{disc}:extended", ok_ext, why_ext, loc)
+                    ctx.ob("C06.copy", con, f"{disc}:payload", ok_pay, why_pay, loc)
     ctx.floor("C06.dad-first", 23, "sinks")  # + 2 obligations on the DAD body below
     ctx.floor("C06.dpd-first", 37)
     if n_fwd < 8:
